@@ -393,10 +393,14 @@ def bounded_purity(tier, seed):
             b.violation("hash-seed", f"PYTHONHASHSEED={hs} vs {seeds[0]}: result #{diff} differs: {a[diff]} vs {c[diff]}", dict(kind="hash-seed", seeds=[seeds[0], hs], seed=seed))
     # directory enumeration order
     files = {"__init__.py": "", "a/__init__.py": "", "a/x.py": "import proj.b.y\nfrom proj.c import z\n", "a/w.py": "from . import x\n", "b/__init__.py": "", "b/y.py": "import proj.c.z\n",
-             "c/z.py": "import os\n", "c/__init__.py": "from proj.a import x\n"}
+             "c/z.py": "import os\n", "c/__init__.py": "from proj.a import x\n",
+             # imports that point INTO an internal package that is not scanned (excluded), at two depths, from files whose processing order is the enumeration order (seed C15n)
+             "a/p.py": "import proj.gen_out.models.user\n", "a/q.py": "import proj.gen_out.models\n", "b/r.py": "import proj.gen_out\nimport proj.gen_out.models.user.fields\n",
+             "gen_out/__init__.py": "", "gen_out/models/__init__.py": "", "gen_out/models/user.py": ""}
     import pathlib
+    scan_x = lambda root_: scan(root_, exclusions=("*gen_out*",))
     with temp_project(files) as root:
-        ref = arch_snapshot(scan(root))
+        ref = arch_snapshot(scan_x(root))
         orig = pathlib.Path.iterdir
         for k in range(3 if tier == "quick" else 12):
             r2 = random.Random(seed + k)
@@ -407,7 +411,7 @@ def bounded_purity(tier, seed):
                 return iter(xs)
             pathlib.Path.iterdir = shuffled
             try:
-                got = arch_snapshot(scan(root))
+                got = arch_snapshot(scan_x(root))
             finally:
                 pathlib.Path.iterdir = orig
             b.case()
